@@ -165,10 +165,21 @@ type hxFailReader struct {
 	off  int
 	fail int // fail when off reaches this offset
 	one  bool
+	kind int // error value returned at the failure point
 }
 
 func (r *hxFailReader) Read(p []byte) (int, error) {
 	if r.off >= r.fail {
+		// what a failing reader returns is its own business: a custom error, the io
+		// sentinels of truncated sources (gzip, HTTP bodies), or a plain early EOF
+		switch r.kind {
+		case 1:
+			return 0, io.ErrUnexpectedEOF
+		case 2:
+			return 0, io.EOF
+		case 3:
+			return 0, &hxWrapErr{io.ErrUnexpectedEOF}
+		}
 		return 0, hxProdErr
 	}
 	if r.off >= len(r.data) {
@@ -208,7 +219,8 @@ func HarnessC09Reader() {
 			svAssert(false, "C09 panic: "+hxPanicLabel(r))
 		}
 	}()
-	_, err := EMLToMsgFromReader(&hxFailReader{data: []byte(tpl), fail: j, one: one})
+	kind := svPick("reader-error-kind", svParam("errkinds", 4))
+	_, err := EMLToMsgFromReader(&hxFailReader{data: []byte(tpl), fail: j, one: one, kind: kind})
 	if err != nil {
 		svReach("parse-error")
 	} else {
